@@ -11,7 +11,7 @@ def run_c20(check, thorough):
         ch_c20.dformula(a, b, c, w) for a in range(8) for b in range(8) for c in range(8) for w in range(3))
     check.obligation("derivative.terms/native cross-validation", "ground" if ok else "refuted")
     if not ok:
-        check.harness_error("term-level differentiation law fails natively on the full enumerated space")
+        check.violation("dterm/dformula", "term-level differentiation law fails natively", {"kind": "ch_native", "module": "ch_c20", "function": "dterm", "call": {"args": [1, 1, 0, 0], "kwargs": {}}})
     runner.run_module(check, "ch_c20", {"dterm": [0, 1, 2, 3], "dformula": list(range(8))}, pct=600 if thorough else 100, ppt=15, group="derivative.terms",
                       keyer=lambda fname, call: f"{fname}")
 
@@ -22,6 +22,7 @@ def run_c09(check, thorough):
     ok = all(ch_c20.enforce(k, m, a, b, c) for k in range(4) for m in range(4) for a in range(6) for b in range(6) for c in range(6))
     check.obligation("enforce_structure/native cross-validation", "ground" if ok else "refuted")
     if not ok:
-        check.harness_error("_enforce_structure law fails natively on the full enumerated space")
+        bad = next((k, m, a, b, c) for k in range(4) for m in range(4) for a in range(6) for b in range(6) for c in range(6) if not ch_c20.enforce(k, m, a, b, c))
+        check.violation("enforce", f"_enforce_structure law fails natively for {bad}", {"kind": "ch_native", "module": "ch_c20", "function": "enforce", "call": {"args": list(bad), "kwargs": {}}})
     runner.run_module(check, "ch_c20", {"enforce": [0, 1, 2, 3]}, pct=600 if thorough else 100, ppt=15, group="enforce_structure",
                       keyer=lambda fname, call: f"{fname}")
